@@ -337,6 +337,42 @@ pub fn dispatch(f: &[&str]) -> String {
             let r = crate::rich::parse(f[1]).unwrap();
             format!("OK {}", hex::encode(r.to_string()))
         }
+        // ---- C05: process-global state
+        "setctr" => {
+            let n: usize = f[1].parse().unwrap();
+            chialisp::compiler::gensym::ARGNAME_CTR.store(n, std::sync::atomic::Ordering::SeqCst);
+            "OK".to_string()
+        }
+        "getctr" => format!("OK {}", chialisp::compiler::gensym::ARGNAME_CTR.load(std::sync::atomic::Ordering::SeqCst)),
+        "intmode" => {
+            // set the per-thread integer-conversion mode and leave it set (as a previous user of the thread might)
+            let g = chialisp::compiler::clvm::NewStyleIntConversion::new(f[1] == "1");
+            std::mem::forget(g);
+            "OK".to_string()
+        }
+        "getintmode" => {
+            // observe the mode: convert the atom [0] (Integer 0 in legacy mode, hex string in the fixed mode)
+            let mut a = Allocator::new();
+            let z = a.new_atom(&[0]).unwrap();
+            match chialisp::compiler::clvm::convert_from_clvm_rs(&mut a, crate::rich::loc(), z) {
+                Ok(r) => format!("OK {}", if matches!(&*r, chialisp::compiler::sexp::SExp::Integer(_, _)) { 0 } else { 1 }),
+                Err(_) => "ERR".to_string(),
+            }
+        }
+        "threads" => {
+            // threads <k> <opt> <paths> <hexsrc>: compile the same text in k threads at once
+            let k: usize = f[1].parse().unwrap();
+            let opt = f[2] == "1";
+            let paths: Vec<String> = f[3].split(';').filter(|s| !s.is_empty()).map(|s| s.to_string()).collect();
+            let text = String::from_utf8_lossy(&hex::decode(f[4]).unwrap()).to_string();
+            let mut hs = Vec::new();
+            for _ in 0..k {
+                let (p, t) = (paths.clone(), text.clone());
+                hs.push(std::thread::spawn(move || compile_text(opt, &p, &t, "*verif*")));
+            }
+            let outs: Vec<String> = hs.into_iter().map(|h| h.join().unwrap_or_else(|_| "PANIC thread".to_string())).collect();
+            outs.join(" ||| ")
+        }
         other => format!("BADOP {}", other),
     }
 }
